@@ -315,6 +315,8 @@ def main_(argv):
 
     if skipped_some and any(f['impl'] != 'bad-op' for f in fails):
         fails = [f for f in fails if f['impl'] != 'bad-op']      # cases that were never run are not evidence
+    # an entry point that no longer exists answers bad-op: that is a removed definition (a broken obligation, reported below), but
+    # the replay should be an input on which the property fails, so answered failures are preferred (see `simplicity`)
     # known findings are matched by (property, clause key)
     kf = [k for k in known_findings() if k['property'] == pid]
     known_hit, fresh = {}, []
@@ -370,7 +372,7 @@ def main_(argv):
         # report the simplest failing case: fewest non-zero hex digits / shortest operands
         def simplicity(f):
             args = f['line'].split()[1:]
-            return (sum(1 for a in args for ch in a if ch not in '0-'), len(f['line']))
+            return (f['impl'] == 'bad-op', sum(1 for a in args for ch in a if ch not in '0-'), len(f['line']))
         f = min(fresh, key=simplicity)
         rp = write_replay(pid, st, {'kind': 'oracle', 'clause': f['clause'], 'detail': f['detail'], 'cases': [f['line']], 'impl_answer': f['impl'],
                                     'n_failures': len(fresh), 'clauses': sorted({x['clause'] for x in fresh}), 'seed': seed,
